@@ -58,6 +58,14 @@ CHECKS["C06"] = (
     "3/C06",
 )
 
+CHECKS["C07"] = (
+    "fault_enumeration",
+    "deterministic simulation with corruption enumeration: real writers -> simulated storage/transport that flips, substitutes, truncates, extends -> real readers; seeded put/corrupt/get sequences on the validating caches",
+    "Per generated artifact instance every single-bit flip (plus byte substitutions, every truncation length, extensions) inside the region its checksum is defined over is applied and the real reader must refuse; for the validating caches seeded sequences of validated put / corrupt or delete the backing file / validated get must never return bytes whose MD5 differs from the requested key and must not serve an entry after corruption was detected. Exhaustive over bit positions for artifacts <= 4 KiB; instances are sampled.",
+    "Trusted: the protected region per artifact is taken from the checksum's definition in the code's documentation; 'accepted with logically equal content' is not judged. Single corruptions only.",
+    "3/C07",
+)
+
 PENDING = {}
 
 
